@@ -249,7 +249,7 @@ package console
 // NewVesaFbConsole establishes the depth-dependent part of wfVesa: the byte width of a pixel
 // is (bpp+1)/8 - 1, 2, 2, 3, 4 for the depths 8, 15, 16, 24, 32 - and the geometry is taken over
 //@ func NewVesaFbConsole(width uint32, height uint32, bpp uint8, pitch uint32, colorInfo *multiboot.FramebufferRGBColorInfo, fbPhysAddr uintptr) (c *VesaFbConsole)
-//@   property C19
+//@   property C19 C18
 //@   requires bpp <= 64
 //@   ensures made: c != nil && c.bpp == uint32(bpp) && c.bytesPerPixel == (uint32(bpp)+1)/8 && c.width == width && c.height == height && c.pitch == pitch && c.colorInfo == colorInfo && c.fbPhysAddr == fbPhysAddr
 //@   ensures depth15: bpp == 15 ==> c.bytesPerPixel == 2
